@@ -165,6 +165,19 @@ Theorem C15_header_names_any_casing : forall n n',
 Proof. exact canon_key_any_casing. Qed.
 Print Assumptions C15_header_names_any_casing.
 
+(** bytes in, bytes out: without a trusted X-Forwarded-Uri, under `off` /
+    `no_decode`, a valid encoded request path reaches the upstream as
+    add_path_prefix ++ (path minus strip_path_prefix), byte for byte *)
+Theorem C15_request_path_end_to_end : forall fx q pl r tls m uri host hs body,
+  serve fx q pl r = Forwarded tls m uri host hs body ->
+  oracle_ok q = true -> valid_encoded (q_raw q) = true ->
+  h_get "X-Forwarded-Uri" (in_headers q) = "" ->
+  r_setting r <> On -> guard_F5 r = false ->
+  fst (cut_on "?" uri) =
+  (let p := cfg_add r ++ strip_prefix (cfg_strip r) (q_raw q) in if is_empty p then "/" else p).
+Proof. exact request_path_end_to_end. Qed.
+Print Assumptions C15_request_path_end_to_end.
+
 (** THE WHOLE STATEMENT: for every request (any bytes), every pipeline output and
     every rule / rewrite configuration on which none of the open findings
     C15-F2, -F3, -F5 shows, what is forwarded (or that nothing is) satisfies every
